@@ -79,6 +79,10 @@ const ASSUME: [&str; 4] = [
 
 impl Prop for C16 {
     type Case = SimCase;
+    fn admissible(c: &SimCase) -> bool {
+        crate::props::sim_admissible(c) && c.pps.is_none() && !c.only_client && !c.only_network && c.max_trace_length == 0
+    }
+
     const ID: &'static str = "C16";
     const RULE: &'static str = "case = trace (1..=40 lines) x delay x 0..=3 machines per side biased to BlockOutgoing (all four bypass/replace combinations) and SendPadding, light distributions (timeouts from 0; durations from 1 us in profile 'blocking', from 0 in profile 'zero') x fractions x seed, iteration-bounded, unfiltered. Non-trivial: a blocking period that held a queued packet (TunnelSent released at the BlockingEnd instant) or that a second action updated. Distinct = hash of the case.";
     fn profiles(tier: Tier) -> Vec<Profile> {
@@ -127,6 +131,10 @@ impl Prop for C16 {
 
 impl Prop for C17 {
     type Case = SimCase;
+    fn admissible(c: &SimCase) -> bool {
+        crate::props::sim_admissible(c) && c.pps.is_none() && !c.only_client && !c.only_network && c.max_trace_length == 0
+    }
+
     const ID: &'static str = "C17";
     const RULE: &'static str = "case = trace x delay x 0..=3 machines per side biased to SendPadding/BlockOutgoing with timeouts from 0 upwards, re-issued before they fire, and Cancel actions of each timer kind x fractions x seed, iteration-bounded, unfiltered. Non-trivial: a run in which an action was superseded or cancelled before firing and another one fired. Distinct = hash of the case.";
     fn profiles(tier: Tier) -> Vec<Profile> {
@@ -165,6 +173,10 @@ impl Prop for C17 {
 
 impl Prop for C18 {
     type Case = SimCase;
+    fn admissible(c: &SimCase) -> bool {
+        crate::props::sim_admissible(c) && c.pps.is_none() && !c.only_client && !c.only_network && c.max_trace_length == 0
+    }
+
     const ID: &'static str = "C18";
     const RULE: &'static str = "case = trace x delay x 0..=3 machines per side biased to UpdateTimer (both replace settings, durations from 1 us in profile 'timers', from 0 in profile 'zero') and Cancel x fractions x seed, iteration-bounded, unfiltered. Non-trivial: a run with a non-replace update that did not change the timer, one that did, and a TimerEnd. Distinct = hash of the case.";
     fn profiles(tier: Tier) -> Vec<Profile> {
